@@ -371,6 +371,27 @@ func ruleP9c(c *Ctx) {
 		}
 		return false
 	}
+	// an inner loop whose body sends is taken to send (it iterates over the reification triples / the extra pairs, which
+	// are non-empty by construction); its blocks count as sending blocks
+	sendLoopBlock := map[int]bool{}
+	for _, l := range fi.naturalLoops() {
+		if l.blocks[anchor.Block().Index] {
+			continue // the row loop itself or an enclosing one
+		}
+		has := false
+		for bi := range l.blocks {
+			for _, in := range fn.Blocks[bi].Instrs {
+				if _, ok := in.(*ssa.Send); ok {
+					has = true
+				}
+			}
+		}
+		if has {
+			for bi := range l.blocks {
+				sendLoopBlock[bi] = true
+			}
+		}
+	}
 	violated := ""
 	if !hasSendAfter(anchor.Block(), anchor) {
 		stack = append(stack, startIdx)
@@ -396,7 +417,7 @@ func ruleP9c(c *Ctx) {
 			if reachNoSend[v] {
 				continue
 			}
-			if hasSendAfter(vb, nil) {
+			if hasSendAfter(vb, nil) || sendLoopBlock[v] {
 				continue
 			}
 			reachNoSend[v] = true
@@ -955,29 +976,17 @@ func ruleP12b(c *Ctx) {
 			if !ok || !isBuiltinCall(&call.Call, "append") || !isNamed(call.Type(), modPath+"/bql/table", "SortConfig") {
 				return
 			}
-			var loop []int
-			for _, l := range fi.loops() {
-				for _, bi := range l {
-					if bi == in.Block().Index && (loop == nil || len(l) < len(loop)) {
-						loop = l
-					}
-				}
-			}
-			if loop == nil {
+			nl := fi.innermostLoop(in.Block().Index)
+			if nl == nil {
 				return
 			}
-			inL := map[int]bool{}
-			for _, bi := range loop {
-				inL[bi] = true
+			inL := nl.blocks
+			header := nl.header
+			var loop []int
+			for bi := range inL {
+				loop = append(loop, bi)
 			}
-			header := -1
-			for _, bi := range loop {
-				for _, p := range fi.preds[bi] {
-					if !inL[p] {
-						header = bi
-					}
-				}
-			}
+			sort.Ints(loop)
 			for _, bi := range loop {
 				if bi == header {
 					continue
@@ -1215,16 +1224,13 @@ func ruleL6c(c *Ctx, rels ...string) {
 				key := fmt.Sprintf("%s goroutine #%d drains %s", funcName(fn), gi+1, fv.Name())
 				// the loop containing the receive
 				var loop []int
-				for _, l := range tfi.loops() {
-					for _, bi := range l {
-						if bi == in.Block().Index && (loop == nil || len(l) < len(loop)) {
-							loop = l
-						}
-					}
-				}
 				inL := map[int]bool{}
-				for _, bi := range loop {
-					inL[bi] = true
+				if nl := tfi.innermostLoop(in.Block().Index); nl != nil {
+					inL = nl.blocks
+					for bi := range inL {
+						loop = append(loop, bi)
+					}
+					sort.Ints(loop)
 				}
 				early := ""
 				for _, bi := range loop {
@@ -1253,6 +1259,7 @@ func ruleL6c(c *Ctx, rels ...string) {
 // ---- P8b an error that is tested is also propagated ---------------------------------------------------------------------------
 
 var p8bAllowed = map[string]string{
+	"semantic.processPredicate error of predicate.Parse": "probing: the token is first tried as a fully specified predicate; failure means it is a partially specified one and the regular-expression path takes over (which reports its own errors)",
 	"(*planner.queryPlan).addSpecifiedData error of planner.cellToObject": "a cell that cannot become an object (e.g. a NULL from an optional clause, or an extracted id string) leaves the object unspecified; the clause is then fetched with fewer fixed components",
 	"planner.objectToCell error of (*triple.Object).Node":                  "accessor probing: the object is tried as node, predicate, literal in turn",
 	"planner.objectToCell error of (*triple.Object).Predicate":             "accessor probing",
@@ -1283,6 +1290,14 @@ func ruleP8b(c *Ctx, rels ...string) {
 				}
 				sig = f.Signature
 				name = funcName(f)
+			} else if call.Call.StaticCallee() == nil {
+				// a function value defined in the module (updater closures, evaluators)
+				sg, ok := call.Call.Value.Type().Underlying().(*types.Signature)
+				if !ok {
+					return
+				}
+				sig = sg
+				name = "func value " + truncate(c.term(call.Call.Value), 40)
 			} else {
 				return
 			}
